@@ -1,9 +1,9 @@
 #!/bin/bash
 set -e
 . $MC/par.sh
-CF="-std=c++17 -O1 -g -fsanitize=address -fno-omit-frame-pointer -I$REPO -I$MC -I$VERIF/harness/c02"
+CF="-std=c++20 -O1 -g -fsanitize=address -fno-omit-frame-pointer -I$REPO -I$MC -I$VERIF/harness/c02"
 par clang++ -c $CF $VERIF/harness/c03/c03_rings.cpp -o $BUILD/h.o
-par clang++ -std=c++17 -O2 -c -I$MC $MC/mc.cpp -o $BUILD/mc.o
+par clang++ -std=c++20 -O2 -c -I$MC $MC/mc.cpp -o $BUILD/mc.o
 parwait
 clang++ -fsanitize=address $BUILD/h.o $BUILD/mc.o -o $BUILD/c03
 echo "rings $BUILD/c03" > $BUILD/runs.txt
